@@ -988,7 +988,7 @@ class _Tagged(object):
             return states, rets
         if k == "IfStmt":
             real = [x for x in s_["c"] if x is not None]
-            t = self.tag_test(real[0])
+            t = self.tag_test(facts.inline_locals(f, real[0]))
             out, rets = [], []
             for st in states:
                 pre = self.effects(f, real[0], st, depth)
